@@ -798,6 +798,31 @@ pub fn c03_cases(pool: &[SchemaInfo], rng: &mut Rng, tier: &str, shard: (usize, 
             }
         }
     }
+    // long literals with multi-byte characters at every alignment, echoed by error messages
+    // (whatever formats, shortens or measures a message must respect character boundaries)
+    {
+        let synth_i = pool.iter().position(|s| s.name == "synthetic").unwrap();
+        let mut i = 0usize;
+        for unit in ["\u{e9}", "\u{65e5}\u{672c}\u{8a9e}", "\u{1f600}", "a\u{65e5}", "ab"] {
+            for reps in [10usize, 60, 90, 130, 170, 260, 400, 1400] {
+                for pad in 0..4usize {
+                    i += 1;
+                    if i % shard.1 != shard.0 || (tier != "thorough" && (i / shard.1) % 2 == 1) {
+                        continue;
+                    }
+                    let lit = format!("{}{}", "x".repeat(pad), unit.repeat(reps));
+                    let doc = match i % 4 {
+                        0 => format!("{{ f_Int_0(a: \"{}\") }}", lit),
+                        1 => format!("{{ f_Color_0(a: [\"{}\"]) }}", lit),
+                        2 => format!("{{ f_Point_0(a: {{x: \"{}\", nl: []}}) }}", lit),
+                        _ => format!("{{ a {{ id @args(int0: \"{}\") zz{}: nick }} ...Nope }}", lit, "y".repeat(reps)),
+                    };
+                    push(&mut cases, "long-multibyte-literals", synth_i, doc.clone(), all.to_vec(), &mut n);
+                    push(&mut cases, "long-multibyte-literals", synth_i, doc, vec!["ValuesOfCorrectType"], &mut n);
+                }
+            }
+        }
+    }
     // the known stack-overflow witness and relatives
     if shard.0 == 0 {
         for doc in [
